@@ -20,5 +20,4 @@ def run(chk, tier):
         chk.case(("beltraw", hx(k), hx(b)))
     chk.run_family(["default", "kuzsoft", "kuzcompact"], ops)
     conf.require_models(chk, NAMES)
-    if chk.nomodel.get("beltraw"):
-        chk.broken.append({"no_model_for": ["beltraw"]})
+
